@@ -28,9 +28,12 @@ const (
 	kStruct
 	kFunc
 	kTuple
-	kAbs  // the state of an abstract (wrapped) container
-	kMap  // a Go map with Z keys and Z values (GoMap.gmap); struct{} values are 0
-	kIter // a local iterator variable `it := x.Iterator()`: stands for the enumeration list Enum
+	kAbs    // the state of an abstract (wrapped) container
+	kMap    // a Go map with Z keys and Z values (GoMap.gmap); struct{} values are 0
+	kIter   // a local iterator variable `it := x.Iterator()`: stands for the enumeration list Enum
+	kCmp    // a comparator function value (utils.Comparator[T]): GoCmp.comparator; never called by translated code
+	kCmpRef // reflect.ValueOf(comparator) / its .Pointer(): only compared, with the abstract same_comparator
+	kNode   // *Node of an abstract tree: GoCmp.node = option (Z * Z) (nil, or key and value)
 )
 
 type ty struct {
@@ -57,6 +60,7 @@ type absIface struct {
 	Pure    map[string]bool
 	Fixed   bool // the interface is declared in the whitelist: nothing else may be called
 	filling bool
+	unit    *unit
 	Methods map[string]*funcInfo // the interface (declared, or the methods called so far)
 	pos     token.Pos
 }
@@ -126,6 +130,8 @@ type unit struct {
 	UsesRT    bool                // some function uses the runtime's allocation policy (alloc_cap)
 	IterEnums []*structInfo       // structs whose Iterator() is an abstract enumeration (Section variable)
 	UsesMap   bool                // GoMap.v is needed
+	UsesCmp   bool                // GoCmp.v is needed
+	UsesSame  bool                // reflect-based comparator identity: parameter same_comparator
 	UsesMO    bool                // some function ranges over a map (map_order)
 	PkgVars   map[string]ast.Expr // package-level variables with an initialiser
 	Abs       []*absIface
@@ -205,25 +211,8 @@ func (t *translator) absFunc(a *absIface, name string, static bool, at token.Pos
 	if a.Fixed && !a.filling {
 		t.unsupported(at, "call of %s on the abstract container %s.%s: not in the interface declared for field %s in whitelist.go", key, a.Dir, a.Type, a.Field)
 	}
-	files, ok := t.absPkgs[a.Dir]
-	if !ok {
-		ents, err := os.ReadDir(filepath.Join(t.repo, a.Dir))
-		if err != nil {
-			t.unsupported(at, "package %s of the abstract container cannot be read: %v", a.Dir, err)
-		}
-		for _, en := range ents {
-			n := en.Name()
-			if en.IsDir() || !strings.HasSuffix(n, ".go") || strings.HasSuffix(n, "_test.go") {
-				continue
-			}
-			file, err := parser.ParseFile(t.fset, filepath.Join(t.repo, a.Dir, n), nil, parser.SkipObjectResolution)
-			if err != nil {
-				t.unsupported(at, "parse error in %s/%s: %v", a.Dir, n, err)
-			}
-			files = append(files, file)
-		}
-		t.absPkgs[a.Dir] = files
-	}
+	t.loadAbsPkg(a, at)
+	files := t.absPkgs[a.Dir]
 	var found *ast.FuncDecl
 	var tps map[string]bool
 	for _, file := range files {
@@ -288,6 +277,9 @@ func (t *translator) absFunc(a *absIface, name string, static bool, at token.Pos
 		if x.K == kStruct || x.K == kFunc {
 			t.unsupported(at, "abstract method %s.%s takes a struct / function parameter", a.Type, name)
 		}
+		if x.K == kCmp && a.unit != nil {
+			a.unit.UsesCmp = true
+		}
 		k := len(p.Names)
 		if k == 0 {
 			k = 1
@@ -301,6 +293,13 @@ func (t *translator) absFunc(a *absIface, name string, static bool, at token.Pos
 			fi.Results = append(fi.Results, param{"", ty{K: kAbs, A: a}})
 			continue
 		}
+		if isNodePtr(p.typ) { // *Node[K, V]: nil or an entry
+			if a.unit != nil {
+				a.unit.UsesCmp = true
+			}
+			fi.Results = append(fi.Results, param{"", ty{K: kNode}})
+			continue
+		}
 		x := t.resolveType(p.typ, c)
 		if x.K == kStruct || x.K == kFunc {
 			t.unsupported(at, "abstract method %s.%s returns a struct / function", a.Type, name)
@@ -312,6 +311,90 @@ func (t *translator) absFunc(a *absIface, name string, static bool, at token.Pos
 	}
 	a.Methods[key] = fi
 	return fi
+}
+
+func (t *translator) loadAbsPkg(a *absIface, at token.Pos) {
+	files, ok := t.absPkgs[a.Dir]
+	if !ok {
+		ents, err := os.ReadDir(filepath.Join(t.repo, a.Dir))
+		if err != nil {
+			t.unsupported(at, "package %s of the abstract container cannot be read: %v", a.Dir, err)
+		}
+		for _, en := range ents {
+			n := en.Name()
+			if en.IsDir() || !strings.HasSuffix(n, ".go") || strings.HasSuffix(n, "_test.go") {
+				continue
+			}
+			file, err := parser.ParseFile(t.fset, filepath.Join(t.repo, a.Dir, n), nil, parser.SkipObjectResolution)
+			if err != nil {
+				t.unsupported(at, "parse error in %s/%s: %v", a.Dir, n, err)
+			}
+			files = append(files, file)
+		}
+		t.absPkgs[a.Dir] = files
+	}
+	_ = files
+}
+
+func isNodePtr(e ast.Expr) bool {
+	s, ok := e.(*ast.StarExpr)
+	if !ok {
+		return false
+	}
+	x := s.X
+	switch y := x.(type) {
+	case *ast.IndexExpr:
+		x = y.X
+	case *ast.IndexListExpr:
+		x = y.X
+	}
+	id, ok := x.(*ast.Ident)
+	return ok && id.Name == "Node"
+}
+
+// a field of the wrapped container read through the abstract interface (tree.Comparator): key "fld.<name>",
+// record field <field>_fld_<name> : T -> type
+func (t *translator) absFieldRead(a *absIface, name string, at token.Pos) *funcInfo {
+	key := "fld." + name
+	if fi, ok := a.Methods[key]; ok {
+		return fi
+	}
+	if a.Fixed && !a.filling {
+		t.unsupported(at, "read of field %s of the abstract container %s.%s: not in the interface declared in whitelist.go", name, a.Dir, a.Type)
+	}
+	t.loadAbsPkg(a, at)
+	for _, file := range t.absPkgs[a.Dir] {
+		for _, d := range file.Decls {
+			gd, ok := d.(*ast.GenDecl)
+			if !ok || gd.Tok != token.TYPE {
+				continue
+			}
+			for _, sp := range gd.Specs {
+				ts := sp.(*ast.TypeSpec)
+				st, ok := ts.Type.(*ast.StructType)
+				if !ok || ts.Name.Name != a.Type {
+					continue
+				}
+				c := tctx{&unit{Dir: a.Dir, Imports: map[string]string{"utils": "utils"}, Spec: unitSpec{}}, typeParamNames(ts.TypeParams)}
+				for _, f := range fieldList(st.Fields) {
+					if f.name == name {
+						x := t.resolveType(f.typ, c)
+						if x.K != kCmp && x.K != kInt && x.K != kBool && x.K != kElem {
+							t.unsupported(at, "field %s of the abstract container has a type that cannot be read through the interface", name)
+						}
+						if x.K == kCmp && a.unit != nil {
+							a.unit.UsesCmp = true
+						}
+						fi := &funcInfo{Name: name, Coq: a.Field + "_fld_" + name, Abs: a, Needs: map[string]bool{}, Results: []param{{"", x}}}
+						a.Methods[key] = fi
+						return fi
+					}
+				}
+			}
+		}
+	}
+	t.unsupported(at, "abstract container %s.%s has no field %s", a.Dir, a.Type, name)
+	return nil
 }
 
 type unsupportedErr struct{ msg string }
@@ -381,6 +464,16 @@ func (t *translator) coqType(x ty, from *unit) string {
 		return "(" + strings.Join(parts, " -> ") + ")"
 	case kTuple:
 		return t.resultType(x.Results, from)
+	case kCmp, kCmpRef:
+		if from != nil {
+			from.UsesCmp = true
+		}
+		return "GoCmp.comparator"
+	case kNode:
+		if from != nil {
+			from.UsesCmp = true
+		}
+		return "GoCmp.node"
 	case kMap:
 		return "GoMap.gmap"
 	case kAbs:
@@ -574,6 +667,12 @@ func (t *translator) resolveType(e ast.Expr, c tctx) ty {
 		}
 		return r
 	case *ast.IndexExpr: // Generic[T]
+		if sel, ok := x.X.(*ast.SelectorExpr); ok && sel.Sel.Name == "Comparator" {
+			if id, ok := sel.X.(*ast.Ident); ok && (c.u.Imports[id.Name] == "utils" || id.Name == "utils") {
+				c.u.UsesCmp = true
+				return ty{K: kCmp}
+			}
+		}
 		a := t.resolveType(x.Index, c)
 		if a.K != kElem && a.K != kInt {
 			t.unsupported(x.Pos(), "generic instantiation with something else than the type parameter / int")
@@ -897,6 +996,12 @@ func (f *fx) expr(x ast.Expr, e env) (string, ty) {
 		f.bad(n.Pos(), "unary operator %s", n.Op)
 	case *ast.CompositeLit:
 		return f.composite(n, e)
+	case *ast.StarExpr: // *pkg.New(): the abstract container by value
+		s, ts := f.expr(n.X, e)
+		if ts.K != kAbs {
+			f.bad(n.Pos(), "dereference of something that is not an abstract container")
+		}
+		return s, ts
 	case *ast.SliceExpr:
 		if !f.capMode() {
 			f.bad(n.Pos(), "slice expression (only in capacity-aware units)")
@@ -940,8 +1045,40 @@ func (f *fx) expr(x ast.Expr, e env) (string, ty) {
 			}
 			f.bad(n.Pos(), "comparison of non-constant floating-point values")
 		}
+		if n.Op == token.EQL || n.Op == token.NEQ {
+			isNil := func(x ast.Expr) bool {
+				id, ok := x.(*ast.Ident)
+				_, shadow := e.vars["nil"]
+				return ok && id.Name == "nil" && !shadow
+			}
+			other := ast.Expr(nil)
+			if isNil(n.Y) {
+				other = n.X
+			} else if isNil(n.X) {
+				other = n.Y
+			}
+			if other != nil {
+				s, ts := f.expr(other, e)
+				if ts.K != kNode {
+					f.bad(n.Pos(), "comparison with nil of something that is not a tree node")
+				}
+				if n.Op == token.NEQ {
+					return "(GoCmp.node_nonnil " + s + ")", ty{K: kBool}
+				}
+				return "(negb (GoCmp.node_nonnil " + s + "))", ty{K: kBool}
+			}
+		}
 		a, ta := f.expr(n.X, e)
 		b, tb := f.expr(n.Y, e)
+		if ta.K == kCmpRef && tb.K == kCmpRef && (n.Op == token.EQL || n.Op == token.NEQ) {
+			// reflect.ValueOf(c1).Pointer() == reflect.ValueOf(c2).Pointer(): the abstract "same comparator"
+			f.u.UsesSame = true
+			s := "(same_comparator " + a + " " + b + ")"
+			if n.Op == token.NEQ {
+				s = "(negb " + s + ")"
+			}
+			return s, ty{K: kBool}
+		}
 		arith := func(op string) (string, ty) {
 			f.want(n.X, ta, kInt)
 			f.want(n.Y, tb, kInt)
@@ -1000,8 +1137,18 @@ func (f *fx) expr(x ast.Expr, e env) (string, ty) {
 		}
 		f.bad(n.Pos(), "binary operator %s", n.Op)
 	case *ast.SelectorExpr:
+		if f.isCmpCompare(n, e) {
+			f.u.UsesCmp = true
+			return "GoCmp.compare", ty{K: kCmp}
+		}
 		return f.selector(n, e)
 	case *ast.IndexExpr:
+		if sel, ok := n.X.(*ast.SelectorExpr); ok && f.isCmpCompare(sel, e) { // cmp.Compare[T]
+			if a := f.t.resolveType(n.Index, tctx{f.u, f.fi.TypeParms}); a.K == kElem || a.K == kInt {
+				f.u.UsesCmp = true
+				return "GoCmp.compare", ty{K: kCmp}
+			}
+		}
 		a, ta := f.expr(n.X, e)
 		if ta.K == kMap {
 			k, tk := f.expr(n.Index, e)
@@ -1039,8 +1186,31 @@ func (f *fx) want(x ast.Expr, t ty, k kind) {
 	}
 }
 
+// cmp.Compare of the standard library: the opaque constant GoCmp.compare
+func (f *fx) isCmpCompare(n *ast.SelectorExpr, e env) bool {
+	id, ok := n.X.(*ast.Ident)
+	if !ok || id.Name != "cmp" || n.Sel.Name != "Compare" || f.u.Imports["cmp"] != "<std>/cmp" {
+		return false
+	}
+	_, shadow := e.vars["cmp"]
+	return !shadow
+}
+
 func (f *fx) selector(n *ast.SelectorExpr, e env) (string, ty) {
 	b, tb := f.expr(n.X, e)
+	if tb.K == kAbs { // a field of the wrapped container, read through the interface
+		fi := f.t.absFieldRead(tb.A, n.Sel.Name, n.Pos())
+		return "(" + fi.Coq + " " + tb.A.Field + "_I " + b + ")", fi.Results[0].Ty
+	}
+	if tb.K == kNode {
+		switch n.Sel.Name {
+		case "Key":
+			return "(GoCmp.node_key " + b + ")", ty{K: kElem}
+		case "Value":
+			return "(GoCmp.node_value " + b + ")", ty{K: kElem}
+		}
+		f.bad(n.Pos(), "field %s of a tree node (only Key and Value)", n.Sel.Name)
+	}
 	if tb.K != kStruct {
 		f.bad(n.Pos(), "field selection .%s on something that is not a whitelisted struct", n.Sel.Name)
 	}
@@ -1073,10 +1243,13 @@ func (f *fx) composite(cl *ast.CompositeLit, e env) (string, ty) {
 		f.bad(cl.Pos(), "composite literal of a non-struct type")
 	}
 	given := map[string]string{}
-	for _, el := range cl.Elts {
+	for i, el := range cl.Elts {
 		kv, ok := el.(*ast.KeyValueExpr)
-		if !ok {
-			f.bad(el.Pos(), "positional composite literal")
+		if !ok { // positional: every field, in declaration order
+			if len(t.S.Ignored) > 0 || len(cl.Elts) != len(t.S.Fields) {
+				f.bad(el.Pos(), "positional composite literal that does not list every field")
+			}
+			kv = &ast.KeyValueExpr{Key: &ast.Ident{NamePos: el.Pos(), Name: t.S.Fields[i].Name}, Value: el}
 		}
 		k, ok := kv.Key.(*ast.Ident)
 		if !ok {
@@ -1208,6 +1381,16 @@ func (f *fx) slicesCall(c *ast.CallExpr, name string, e env) (string, []ty, *fun
 	return "", nil, nil
 }
 
+// the type of x when it is a plain local variable (no failure otherwise)
+func (f *fx) tryExpr(x ast.Expr, e env) (string, ty) {
+	if id, ok := x.(*ast.Ident); ok {
+		if vi, ok := e.vars[id.Name]; ok {
+			return vname(id.Name), vi.ty
+		}
+	}
+	return "", ty{K: kTuple}
+}
+
 func (f *fx) sliceLit(els []string) string {
 	if f.capMode() {
 		if len(els) == 0 {
@@ -1223,7 +1406,11 @@ func (f *fx) sliceLit(els []string) string {
 
 func (f *fx) call(c *ast.CallExpr, e env) (string, []ty, *funcInfo) {
 	if _, isSel := c.Fun.(*ast.SelectorExpr); c.Ellipsis != token.NoPos && !isSel {
-		if id, ok := c.Fun.(*ast.Ident); !ok || (f.t.findFunc(f.u.Dir, id.Name, f.u) == nil && !(id.Name == "append" && f.capMode())) {
+		fun := c.Fun
+		if ix, ok := fun.(*ast.IndexExpr); ok {
+			fun = ix.X
+		}
+		if id, ok := fun.(*ast.Ident); !ok || (f.t.findFunc(f.u.Dir, id.Name, f.u) == nil && !(id.Name == "append" && f.capMode())) {
 			f.bad(c.Pos(), "variadic call f(xs...) of something that is not a whitelisted function")
 		}
 	}
@@ -1238,7 +1425,7 @@ func (f *fx) call(c *ast.CallExpr, e env) (string, []ty, *funcInfo) {
 		if sel, ok := fun.(*ast.SelectorExpr); ok {
 			if id, ok := sel.X.(*ast.Ident); ok {
 				if _, shadow := e.vars[id.Name]; !shadow {
-					if dir, isPkg := f.u.Imports[id.Name]; isPkg && dir != "<std>/slices" {
+					if dir, isPkg := f.u.Imports[id.Name]; isPkg && !strings.HasPrefix(dir, "<std>/") {
 						a := f.staticIface
 						if a == nil || a.Dir != dir {
 							a = nil
@@ -1368,6 +1555,20 @@ func (f *fx) call(c *ast.CallExpr, e env) (string, []ty, *funcInfo) {
 		}
 		f.bad(c.Pos(), "call of %s (not a whitelisted function, len, make or a function-typed parameter)", fn.Name)
 	case *ast.SelectorExpr:
+		if id, ok := fn.X.(*ast.Ident); ok && id.Name == "reflect" && fn.Sel.Name == "ValueOf" && f.u.Imports["reflect"] == "<std>/reflect" && len(c.Args) == 1 {
+			if _, shadow := e.vars["reflect"]; !shadow {
+				s, ts := f.expr(c.Args[0], e)
+				if ts.K != kCmp {
+					f.bad(c.Pos(), "reflect.ValueOf of something that is not a comparator")
+				}
+				return s, []ty{{K: kCmpRef}}, nil
+			}
+		}
+		if fn.Sel.Name == "Pointer" && len(c.Args) == 0 {
+			if s, ts := f.tryExpr(fn.X, e); ts.K == kCmpRef {
+				return s, []ty{{K: kCmpRef}}, nil
+			}
+		}
 		if id, ok := fn.X.(*ast.Ident); ok && id.Name == "slices" && f.u.Imports["slices"] == "<std>/slices" {
 			if _, shadow := e.vars["slices"]; !shadow {
 				return f.slicesCall(c, fn.Sel.Name, e)
@@ -1754,7 +1955,7 @@ func (f *fx) stmts(ss []ast.Stmt, e env, k cont, top bool) string {
 		return p + next(e2)
 	case *ast.AssignStmt:
 		if f.isIterDefine(n, e) {
-			return f.iterLoop(n, rest, e, k, top)
+			return f.iterLoop(n, rest, e, k, top, false)
 		}
 		return f.assignStmt(n, e, next)
 	case *ast.ReturnStmt:
@@ -1762,6 +1963,11 @@ func (f *fx) stmts(ss []ast.Stmt, e env, k cont, top bool) string {
 	case *ast.IfStmt:
 		return f.ifStmt(n, e, next)
 	case *ast.ForStmt:
+		if as, ok := n.Init.(*ast.AssignStmt); ok && n.Post == nil && n.Cond != nil && f.isIterDefine(as, e) {
+			// for it := x.Iterator(); it.Next(); { body }
+			loop := &ast.ForStmt{For: n.For, Cond: n.Cond, Body: n.Body}
+			return f.iterLoop(as, append([]ast.Stmt{loop}, rest...), e, k, top, true)
+		}
 		return f.forStmt(n, rest, e, k, next, top)
 	case *ast.RangeStmt:
 		return f.rangeStmt(n, rest, e, k, next, top)
@@ -2348,7 +2554,7 @@ func (f *fx) isIterDefine(n *ast.AssignStmt, e env) bool {
 
 // it := x.Iterator(); for it.Next() { body }: the iterator is the ABSTRACT enumeration of x's (index-or-key,
 // value) pairs; the loop is a fold over it (a structural Fixpoint when the body returns, top level only).
-func (f *fx) iterLoop(n *ast.AssignStmt, rest []ast.Stmt, e env, k cont, top bool) string {
+func (f *fx) iterLoop(n *ast.AssignStmt, rest []ast.Stmt, e env, k cont, top bool, scoped bool) string {
 	it := n.Lhs[0].(*ast.Ident).Name
 	if _, exists := e.vars[it]; exists {
 		f.bad(n.Pos(), "iterator variable %s shadows an outer variable", it)
@@ -2412,6 +2618,9 @@ func (f *fx) iterLoop(n *ast.AssignStmt, rest []ast.Stmt, e env, k cont, top boo
 		return true
 	})
 	for _, s := range after { // the iterator must not be used after its loop
+		if scoped {
+			break // for it := ...; it.Next(); {}: the variable does not exist after the loop
+		}
 		ast.Inspect(s, func(x ast.Node) bool {
 			if id, ok := x.(*ast.Ident); ok && id.Name == it {
 				f.bad(id.Pos(), "iterator %s used after its loop", it)
@@ -2423,6 +2632,10 @@ func (f *fx) iterLoop(n *ast.AssignStmt, rest []ast.Stmt, e env, k cont, top boo
 	kv := "kv" + strconv.Itoa(f.nloop)
 	lst := vname(it)
 	e1 := e.with(it, ty{K: kIter, Enum: enum})
+	eAfter := e1
+	if scoped {
+		eAfter = e
+	}
 	ein := e1.deeper()
 	ein = env{vars: ein.vars, depth: ein.depth + 1}
 	pre := "let " + vname(it) + "_key := fst " + kv + " in\nlet " + vname(it) + "_val := snd " + kv + " in\n"
@@ -2456,7 +2669,7 @@ func (f *fx) iterLoop(n *ast.AssignStmt, rest []ast.Stmt, e env, k cont, top boo
 			binder = "'" + tuple(ms)
 		}
 		return head + "let " + letPat(ms) + " :=\n  List.fold_left (fun " + binder + " (" + kv + " : Z * Z) =>\n" + pre + b +
-			")\n  " + lst + " " + tuple(ms) + " in\n" + f.stmts(after, e1, k, top)
+			")\n  " + lst + " " + tuple(ms) + " in\n" + f.stmts(after, eAfter, k, top)
 	}
 	if !top {
 		f.bad(loop.Pos(), "iterator loop with a return that is not at the top level of the function body")
@@ -2471,7 +2684,7 @@ func (f *fx) iterLoop(n *ast.AssignStmt, rest []ast.Stmt, e env, k cont, top boo
 		args = append(args, vname(nm))
 	}
 	recur := "(" + fname + " rest' " + strings.Join(args, " ") + ")"
-	exit := f.stmts(after, e1, k, false)
+	exit := f.stmts(after, eAfter, k, false)
 	b := body(func(env) string { return recur })
 	def := "Fixpoint " + fname + " (rest : Datatypes.list (Z * Z)) " + strings.Join(binders, " ") + " {struct rest} : " + f.retType() + " :=\n" +
 		"match rest with\n| Datatypes.nil => (" + exit + ")\n| Datatypes.cons " + kv + " rest' =>\n" + pre + "(" + b + ")\nend.\n"
